@@ -301,8 +301,9 @@ class CounterToken(Token, FileSystemEventHandler):
                         tokenfile = TokenFile(path)
                         tokenfile.watch()
                         self.cache[path.name] = tokenfile
-        except FileNotFoundError:
-            # We did not find the token file... just ignore
+        except (FileNotFoundError, ValueError):
+            # We did not find the token file (or another process has created it
+            # but not written it yet: a modification event will follow)... just ignore
             pass
         except Exception:
             logger.exception("Uncaught exception in on_modified handler")
@@ -351,8 +352,9 @@ class CounterToken(Token, FileSystemEventHandler):
                             tokenfile = TokenFile(path)
                             tokenfile.watch()
                             self.cache[path.name] = tokenfile
-                        except FileNotFoundError:
-                            # Well, the file did not exist anymore...
+                        except (FileNotFoundError, ValueError):
+                            # Well, the file did not exist anymore (or is not
+                            # fully written yet)...
                             pass
         except Exception:
             logger.exception("Uncaught exception in on_modified handler")
